@@ -400,10 +400,13 @@ fn c13_one<T: Elem>(out: &mut Out, rng: &mut Sm) {
         "i8" => 12.0,
         _ => 0.0,
     };
+    // a share of the floating-point histories lives entirely at a tiny scale (every coordinate of every move far below
+    // f32::EPSILON in absolute size): 'state differs from previous state' is exact inequality, not a tolerance (seeded C13-m7)
+    let tiny_case = !int && rng.coin(0.15);
     let cols: Vec<Vec<Vec<f64>>> = (0..p)
         .map(|_| {
             let k = *rng.pick(&[Kind::Iid, Kind::Ar1, Kind::Sticky, Kind::Sticky, Kind::Apart, Kind::Trend]);
-            let scale = if int && rng.coin(0.4) { rng.log_uniform(2.0, big) } else if int { rng.uniform(2.0, 50.0f64.min(big)) } else if rng.coin(0.25) { rng.log_uniform(1e-6, 1e-3) } else { rng.log_uniform(1e-2, 1e2) };
+            let scale = if tiny_case { rng.log_uniform(1e-12, 1e-8) } else if int && rng.coin(0.4) { rng.log_uniform(2.0, big) } else if int { rng.uniform(2.0, 50.0f64.min(big)) } else if rng.coin(0.25) { rng.log_uniform(1e-6, 1e-3) } else { rng.log_uniform(1e-2, 1e2) };
             let loc = if int { scale * 4.0 + rng.unit() * 20.0 } else { rng.normal() * scale * 3.0 };
             series(rng, k, m, n + 1, loc, scale)
         })
@@ -469,6 +472,9 @@ fn c13_one<T: Elem>(out: &mut Out, rng: &mut Sm) {
         out.case(format!("c13 {id} {m} {n} {p} ; {}", toks.join(" ")), line);
         out.count(&format!("elem_{}", T::NAME));
         out.count(if p == 1 { "params_1" } else { "params_ge_2" });
+        if tiny_case {
+            out.count("tiny_scale_histories");
+        }
         out.nontrivial(&format!("{}:{m}:{n}:{p}", T::NAME));
     });
 }
